@@ -435,16 +435,16 @@ func c14Run(c *Case) (out string, fails []Fail) {
 
 var c14Alphabet = []byte("a1@./- ")
 
-func c14Exhaustive(g *Gen, maxLen int) {
+func c14Exhaustive(g *Gen, alphabet []byte, name string, maxLen int) {
 	buf := make([]byte, maxLen)
 	var rec func(pos, n int)
 	rec = func(pos, n int) {
 		if pos == n {
-			g.Count(fmt.Sprintf("exhaustive-len%d", n))
+			g.Count(fmt.Sprintf("%s-len%d", name, n))
 			g.Case(0, [][]byte{append([]byte{}, buf[:n]...)}, nil)
 			return
 		}
-		for _, ch := range c14Alphabet {
+		for _, ch := range alphabet {
 			buf[pos] = ch
 			rec(pos+1, n)
 		}
@@ -585,7 +585,9 @@ func c14Gen(g *Gen) {
 		one("probe", v)
 	}
 	// all strings up to length 6 (quick) / 7 (thorough) over {a,1,@,.,/,-,space}
-	c14Exhaustive(g, g.Pick(6, 7))
+	c14Exhaustive(g, c14Alphabet, "exhaustive", g.Pick(6, 7))
+	// and up to length 5 / 6 over a second alphabet: upper case, another digit, '_' and a non-ASCII byte
+	c14Exhaustive(g, []byte("aZ9@._\xc3"), "exhaustive2", g.Pick(5, 6))
 	// texts with 0..4 generated addresses among filler, any order and adjacency
 	for i := 0; i < g.Pick(30000, 600000); i++ {
 		nAddr := r.PickInt([]int{0, 1, 1, 1, 2, 2, 2, 3, 3, 4})
